@@ -71,6 +71,7 @@ def run(model, rep, tier):
     _yaml(model, rep)
     _stale(model, rep, tier)
     _dependence(model, rep)
+    _rebuild_options(model, rep)
 
 
 def _loader_obj(fn):
@@ -497,6 +498,62 @@ def _dependence(model, rep):
                    'depend on them: a calculator constructed with a non-default %s is not reproduced by save / reload'
                    % (a, ', '.join(miss), ', '.join(miss)), nontrivial=bool(dc), engine='parity', qual='%s.loadhdf5' % cname)
     rep.floor('attributes compared between constructor and loader', n, 60)
+
+
+def _rebuild_options(model, rep):
+    """A loader that *rebuilds* an object of one of the package's classes by calling its constructor (rather than
+    deserialising the object the writer stored) passes every optional constructor parameter that shapes the object: an
+    option left to its default reproduces only the originals that were built with that default.  Calls with all-None
+    placeholders (``cls(None, None, ...)``, the blank object the loader then fills attribute by attribute) and calls that
+    forward a stored mapping (``K(**d)``) are not rebuilds."""
+    rep.rule('reload-rebuild-keeps-options', 'a constructor call in a loader passes every optional parameter that shapes the object')
+    internal = {}
+    for mod in model.modules.values():
+        for cn, ci in mod.classes.items():
+            internal.setdefault(cn, (mod, ci))
+    n = 0
+    for mname, cname in PAIRS:
+        mod = model.mod(mname)
+        ci = model.cls(mname, cname)
+        fn = ci.methods.get('loadhdf5')
+        if fn is None:
+            continue
+        for c in walk_local(fn):
+            if not isinstance(c, ast.Call):
+                continue
+            nm = (dotted(c.func) or '').split('.')
+            k = nm[-1]
+            tgt = None
+            if k == 'cls' and len(nm) == 1:
+                tgt = ci
+            elif k in internal and k[:1].isupper():
+                tgt = internal[k][1]
+            if tgt is None:
+                continue
+            init = model.find_method(tgt, '__init__')[1]
+            if init is None:
+                continue
+            n += 1
+            q = '%s.loadhdf5' % cname
+            if all(isinstance(a, ast.Constant) and a.value is None for a in c.args) and not c.keywords:
+                rep.ob('reload-rebuild-keeps-options', mod, c, '%s: %s -- blank object, filled attribute by attribute' % (q, unparse(c)[:60]), True,
+                       engine='parity', qual=q)
+                continue
+            if any(kw.arg is None for kw in c.keywords) or any(isinstance(a, ast.Starred) for a in c.args):
+                rep.ob('reload-rebuild-keeps-options', mod, c, '%s: %s -- forwards a stored mapping' % (q, unparse(c)[:60]), True, engine='parity', qual=q)
+                continue
+            pos = [a.arg for a in init.args.args[1:]]
+            nd = len(init.args.defaults)
+            opt = pos[len(pos) - nd:] + [a.arg for a, d in zip(init.args.kwonlyargs, init.args.kw_defaults) if d is not None]
+            given = set(pos[:len(c.args)]) | {kw.arg for kw in c.keywords}
+            # options that shape the object: read anywhere in the constructor
+            used = {x.id for x in ast.walk(init) if isinstance(x, ast.Name) and isinstance(x.ctx, ast.Load)}
+            miss = [o for o in opt if o not in given and o in used]
+            rep.ob('reload-rebuild-keeps-options', mod, c, '%s: %s' % (q, unparse(c)[:70]), not miss,
+                   '' if not miss else 'the loader rebuilds a %s with the default %s: an original constructed with another value of %s '
+                   '(which the stored object carried) is not reproduced by save / reload' % (tgt.name, ', '.join(miss), ', '.join(miss)),
+                   engine='parity', qual=q)
+    rep.floor('constructor calls in loaders', n, 3)
 
 
 def _stale(model, rep, tier):
